@@ -36,6 +36,15 @@ def one(ctx, rng, cands, spec, want, k=1, deep=False):
                                  # the printed clock may step backwards (32-bit wrap, two captures joined): attribution does not depend on it
                                  'backsteps': rng.choice([0, 0, 0, 0.04, 0.15]), 'wrap': rng.random() < 0.1},
                            t0=(2 ** 32 - rng.randint(1, 2 * 10 ** 6)) if rng.random() < 0.08 else None)
+    if not deep and rng.random() < 0.1:
+        # text in front of the message on the same line (a journal's stamp, a byte order mark on the first line, output the program wrote
+        # without a newline): the message is still the message
+        kind = rng.choice(['journal', 'bom', 'tag', 'partial'])
+        for j, e in enumerate(st['entries']):
+            pre = {'journal': '[%12.6f] host app[812]: ' % (5.0 + j * 0.01), 'bom': '\ufeff' if j == 0 else '', 'tag': 'stderr| ',
+                   'partial': 'saving state... ' if j % 7 == 3 else ''}[kind]
+            e['line'] = pre + e['line']
+        ctx.count('streams_with_text_before_the_message')
     s, probs = objcheck.run_stream(ctx, st, want=want)
     ctx.ev(len(st['entries']))
     stats = {}
